@@ -34,6 +34,18 @@ Viol(c) == (IF c.maxnum > c.total THEN {"ProgressAboveOne"} ELSE {})
            \cup (IF c.total > 0 /\ c.finalnum # c.total THEN {"FinalNotOne"} ELSE {})
            \cup (IF c.nan > 0 THEN {"ProgressNotANumber"} ELSE {})
            \cup (IF c.backwards > 0 THEN {"ProgressBackwards"} ELSE {})
+RECURSIVE SumExcess(_, _)
+SumExcess(c, n) == IF n = 0 THEN 0 ELSE SumExcess(c, n - 1) + ScanExcess(c.sizes[n], c.disks[n])
+ScanViol(c) == (IF c.scanmaxnum > c.total THEN {"ScanAboveOne"} ELSE {})
+               \cup (IF c.scanbackwards > 0 THEN {"ScanBackwards"} ELSE {})
+               \cup (IF c.scannan > 0 THEN {"ScanNotANumber"} ELSE {})
+ScanReport == ScanViol(T[l]) = {} \/ PrintT(<<"SCANOBS", l, ScanViol(T[l])>>)
+ScanDrift == T[l].scanerr # "" \/ T[l].total = 0
+             \/ ( /\ T[l].scanfinalnum = T[l].total
+                  /\ T[l].scanmaxnum <= T[l].total + SumExcess(T[l], Len(T[l].sizes))
+                  /\ T[l].scanmaxnum >= T[l].total
+                  /\ (Len(T[l].sizes) = 1 => T[l].scanmaxnum = T[l].total + SumExcess(T[l], 1)) )
+             \/ PrintT(<<"SCANDRIFT", l, SumExcess(T[l], Len(T[l].sizes))>>)
 Report == Viol(T[l]) = {} \/ PrintT(<<"OBS", l, Viol(T[l])>>)
 \* the heal itself must have worked, or the line says nothing about accounting
 Usable(c) == c.err = "" /\ c.aftererr = ""
